@@ -416,7 +416,7 @@ pub fn main(args: &crate::Args) {
     let mut rep = Report::new("C05", &args.tier, "exploration");
     let quick = rep.is_quick();
     let max_frames = if quick { 3 } else { 4 };
-    let bound = if quick { 2 } else { 3 };
+    let bound = crate::explore::bound_or(if quick { 2 } else { 4 });
     let (mut tapes, _) = collect_tapes(bound, 0, |t| {
         let _ = cfg_from(t, max_frames);
     });
